@@ -1,6 +1,6 @@
 /-
   Oracle commands for C07 (runner prompt cache):
-    hist <resetEnd> <parallel> <ctx> <batch> <multi> <canShift> <vocab> <eosMod> <n> <event>*
+    hist <resetEnd> <parallel> <ctx> <batch> <multi> <canShift> <vocab> <eosMod> <stopEarliest> <n> <event>*
       event := req <keep> <numPredict> <nstops> <stop>* <nprompt> <tok>*
              | step <adopt>            adopt := - | e | loc.pos.tok.dpos.s+s,...   (layout observed after a defrag)
              | busy <nprompt> <tok>*
@@ -153,8 +153,10 @@ def handle (toks : List String) : Option String :=
       let canShift ← nat
       let vocab ← nat
       let eosMod ← nat
+      let stopEarliest ← nat
       let evs ← listOf (pEvent (parallel * ctx))
-      let sv := mkServer resetEnd parallel ctx batch (multi != 0) (canShift != 0) vocab eosMod
+      let sv := { mkServer resetEnd parallel ctx batch (multi != 0) (canShift != 0) vocab eosMod with
+                  stopEarliest := stopEarliest != 0 }
       pure (joinWith " | " (runHist sv evs 1 []))) rest
   | "ll-longest" :: rest =>
     runTP (do
